@@ -43,6 +43,9 @@ def tasks(tier):
         for mode in ('positional', 'keyword'):
             for log in (False, True):
                 ts.append(Task('props.C07:ob_wiring', name='C07/wiring.%d.%s.%s' % (k, mode, log), k=k, mode=mode, log=log, timeout=60))
+    for k in range(1, 5):
+        for log in (False, True):
+            ts.append(Task('props.C07:ob_wiring_explicit_x', name='C07/wiring-explicit-x.%d.%s' % (k, log), k=k, log=log, timeout=120))
     ts.append(Task('props.C07:ob_log_wrapper', name='C07/log_wrapper', timeout=60))
     n = 40 if tier == 'quick' else 400
     ts.append(Task('props.C07:bounded', name='C07/bounded', ncoef=n, tier=tier, timeout=1500))
@@ -225,6 +228,104 @@ def ob_wiring(k, mode, log):
     return go()
 
 
+def ob_wiring_explicit_x(k, log):
+    """make_extrap_func(func, extrap_x_l=[x_0..x_{k-1}], extrap_log=log): the caller's i-th x value belongs to the caller's i-th grid size -
+    the formula is handed the pairs ([log] func(args, pts_i), x_i), i = 0..k-1 (any common order of the pairs: the formulas are symmetric under a
+    common permutation), whatever the order of the grid sizes (symbolic integers: every ordering is a path);  no_extrap=True returns
+    [func(args, pts_i)] in the caller's list order and does not extrapolate."""
+    oid = 'C07/Numerics.py:make_extrap_func.extrap_func/wiring-explicit-x.k%d.%s' % (k, 'log' if log else 'lin')
+    fn = 'dadi/Numerics.py::make_extrap_func'
+
+    @guarded(oid, fn)
+    def go():
+        ex = Executor(policy=lambda fref: 'inline' if fref.qualname in ('make_extrap_func', 'make_extrap_log_func') else 'abstract')
+        func = PyFn(lambda a, pts: Tm('result', a, pts), 'model_func')       # results carry no extrap_x attribute
+        mk = ex.func(FILE, 'make_extrap_func')
+        a = Tm('argA')
+        pts = [z3.Int('pts%d' % i) for i in range(k)]
+        xs = reals('xl', k)
+        out = []
+        for no_extrap in (False, True):
+            def thunk(ex_):
+                ef = ex_.call(mk, [func], dict(extrap_x_l=VList(list(xs)), extrap_log=log))
+                return ex_.call(ef, [a, VList(list(pts))], dict(no_extrap=True) if no_extrap else {})
+            paths = ex.explore(thunk)
+            tag = oid + ('.no_extrap' if no_extrap else '')
+            bad = None
+            for p in paths:
+                if p.outcome != 'return':
+                    bad = 'raises %s' % (p.exc,)
+                    break
+                fcalls = [t for (tg, name, t) in [x for x in p.log if x[0] == 'call'] if name.startswith('dadi.Numerics.')]
+                res = [Tm('result', a, pt) for pt in pts]
+                if no_extrap:
+                    got = [vrepr(_strip(v)) for v in ex.iterate(p.value)] if isinstance(p.value, (VList, list, tuple)) else None
+                    if fcalls or got != [vrepr(r) for r in res]:
+                        bad = 'no_extrap=True must return [func(args, pts_i)] in list order without extrapolating: %s (pc %s)' % (got, p.pc[:4])
+                        break
+                    continue
+                want_ys = [Tm('call:numpy.log', r_) for r_ in res] if log else res
+                if k == 1:
+                    core = want_ys[0]
+                    if fcalls:
+                        bad = 'k=1 must not extrapolate'
+                        break
+                else:
+                    if len(fcalls) != 1 or fcalls[0].op != 'call:dadi.Numerics.' + NAMES[k]:
+                        bad = 'k=%d must call %s exactly once: %r' % (k, NAMES[k], fcalls)
+                        break
+                    try:
+                        ys, xl = [list(ex.iterate(v)) for v in fcalls[0].args[:2]]
+                        pairs = sorted((vrepr(_strip(y)), vrepr(x)) for y, x in zip(ys, xl))
+                    except Exception as e:
+                        bad = 'arguments of %s are not two sequences: %s' % (NAMES[k], e)
+                        break
+                    want_pairs = sorted((vrepr(y), vrepr(x)) for y, x in zip(want_ys, xs))
+                    if len(ys) != k or len(xl) != k or pairs != want_pairs:
+                        bad = 'the formula gets the pairs %s, not (result for pts_i, x_i) %s, on the path %s' % (pairs, want_pairs, [str(c) for c in p.pc][:6])
+                        break
+                    core = fcalls[0]
+                want = Tm('call:numpy.exp', core) if log else core
+                goals = []
+                mm = term_eq(_strip(p.value), _strip(want), goals)
+                mm = mm or discharge(goals, p.pc)
+                if mm:
+                    bad = 'returned value is not %s: %s' % ('exp(formula)' if log else 'the formula result', mm)
+                    break
+            if not paths:
+                bad = 'no path'
+            witness = _replay_explicit(k, log) if bad else None
+            out.append(struct(tag, bad is None, bad or '%d path(s): pairs (result for pts_i, x_i) for every ordering of the grid sizes' % len(paths), fn,
+                              **(dict(witness=witness) if witness else {})))
+        return out
+    return go()
+
+
+def _replay_explicit(k, log):
+    """Native run: a degree<k polynomial in x = 1/pts, grid sizes given in DEcreasing order with the matching explicit x list, must extrapolate to c0."""
+    try:
+        import numpy, dadi.Numerics as N
+        ptsl = list(range(10 + 10 * k, 10, -10))[:k] if k > 1 else [20]
+        xl = [1.0 / p_ for p_ in ptsl]
+
+        def model(a_, pts_):
+            v = numpy.array([1.0 + 0.5 / pts_ + (2.0 / pts_ ** 2 if k > 2 else 0)])
+            return numpy.exp(v) if log else v
+        f = N.make_extrap_func(model, extrap_x_l=xl, extrap_log=log)
+        got = f(0, ptsl)
+        want = float(numpy.exp(1.0)) if log else 1.0
+        res = dict(replayed=True, inputs=dict(pts=ptsl, extrap_x_l=xl, log=log), native_result=[float(x) for x in numpy.ravel(got)])
+        if k > 1:
+            res['postcondition_holds_natively'] = bool(abs(float(numpy.ravel(got)[0]) - want) < 1e-6 * want)
+        lst = f(0, ptsl, no_extrap=True)
+        res['no_extrap_in_list_order'] = bool(all(abs(float(numpy.ravel(r)[0]) - float(numpy.ravel(model(0, p_))[0])) < 1e-12 for r, p_ in zip(lst, ptsl)))
+        if not res['no_extrap_in_list_order']:
+            res['postcondition_holds_natively'] = False
+        return res
+    except Exception as e:
+        return dict(replayed=False, error=repr(e))
+
+
 def _strip(t):
     """compare ignoring attributes set on the result (pop_ids) and recorded setitems"""
     if isinstance(t, Tm):
@@ -290,7 +391,7 @@ def bounded(ncoef, tier):
     evals = nontriv = 0
     samples = []
     fails = []
-    bound = 'k=1..6; %d coefficient sets; all orderings of the grid list for k<=4, 24 sampled for k=5,6; scalar-array and Spectrum values; linear and log modes; fallback on/off (linear mode: sign-changing entry; log mode: entries 0.3-2.0 x fail_mag decades from the finest grid, fail_mag in {2,5,10})' % ncoef
+    bound = 'k=1..6; %d coefficient sets; all orderings of the grid list for k<=4, 24 sampled for k=5,6; scalar-array and Spectrum values; the extrap_x of the results and an explicit extrap_x_l (6 orderings each, incl. no_extrap=True); linear and log modes; fallback on/off (linear mode: sign-changing entry; log mode: entries 0.3-2.0 x fail_mag decades from the finest grid, fail_mag in {2,5,10})' % ncoef
     distinct = set()
     for ci in range(ncoef):
         for k in range(1, 7):
@@ -338,6 +439,26 @@ def bounded(ncoef, tier):
                             fails.append(dict(k=k, pts=list(perm), log=log, error='pop_ids lost'))
                         if len(samples) < 4 and k > 1:
                             samples.append(dict(k=k, pts=list(perm), log=log, shape=list(shape), rel_err=err))
+                # explicit extrap_x_l (results without an extrap_x attribute): the caller's i-th x belongs to the caller's i-th grid size, in any order
+                for perm in perms[:6]:
+                    def plain(scale, pts, _m=model):
+                        return numpy.array(numpy.asarray(_m(scale, pts)))
+                    fx = Numerics.make_extrap_func(plain, extrap_x_l=[1.0 / p_ for p_ in perm], extrap_log=log)
+                    evals += 1
+                    try:
+                        got = fx(2.0, list(perm))
+                        lst = fx(2.0, list(perm), no_extrap=True)
+                    except Exception as e:
+                        fails.append(dict(k=k, pts=list(perm), log=log, explicit_x=True, error=repr(e)))
+                        continue
+                    want = (numpy.exp(coefs[0] * 0.1) if log else coefs[0]) * base * 2.0
+                    want = want.reshape(shape) if shape else want.reshape(1)
+                    err = float(numpy.max(numpy.abs(numpy.asarray(got) - want) / numpy.abs(want)))
+                    distinct.add((k, perm, log, shape, 'explicit-x'))
+                    if not err <= (1e-6 if k >= 5 else 1e-8):
+                        fails.append(dict(k=k, pts=list(perm), log=log, shape=list(shape), explicit_x=True, rel_err=err))
+                    if not all(numpy.array_equal(numpy.asarray(r_), plain(2.0, p_)) for r_, p_ in zip(lst, perm)):
+                        fails.append(dict(k=k, pts=list(perm), log=log, explicit_x=True, error='no_extrap=True does not return the results in the order of the grid list'))
     # log mode: the threshold is fail_mag DECADES of the value.  exp(a + b x) extrapolates exactly in log mode (k = 2); with b/pts decades between
     # the finest grid and x = 0 the entry must fall back iff that distance exceeds fail_mag
     for trial in range(12 if tier == 'quick' else 120):
